@@ -84,7 +84,12 @@ type mSpec struct {
 	// Ranges, when present, are the metric's Buckets as given to the store API,
 	// in this order (not necessarily ascending, +Inf anywhere or absent)
 	Ranges [][2]string `json:"ranges,omitempty"`
-	Ls     []lsSpec    `json:"ls"`
+	// Redecl, when present, replaces the metric's Buckets (the DECLARATION) after
+	// the label sets have been filled: the state after a reload that edited the
+	// `buckets` list, where Store.Add hands the old data (with their own ranges)
+	// over to the new metric.  The exposition reflects the data, not the declaration.
+	Redecl []string `json:"redecl,omitempty"`
+	Ls     []lsSpec `json:"ls"`
 }
 type storeSpec struct {
 	Kind   string    `json:"kind"`
@@ -183,6 +188,13 @@ func build(sp storeSpec) (*metrics.Store, [][]builtMetric) {
 				}
 				bm.ls = append(bm.ls, builtLS{l, vals, d})
 			}
+			if len(ms.Redecl) > 0 {
+				bs := make([]float64, len(ms.Redecl))
+				for i, b := range ms.Redecl {
+					bs[i] = unhx(b)
+				}
+				m.Buckets = rangesOf(bs)
+			}
 			if err := st.Add(m); err != nil {
 				panic(err)
 			}
@@ -200,7 +212,7 @@ type sample struct {
 	Help   string
 	Labels [][2]string // sorted by name
 	Type   string
-	Val    uint64      // float bits
+	Val    uint64 // float bits
 	Hist   bool
 	Count  uint64
 	Sum    uint64
@@ -600,6 +612,20 @@ func genStore(r *vlib.Rand) storeSpec {
 				}
 			}
 		}
+		var redecl []string
+		if typ == "buckets" && r.Chance(30) {
+			// the declaration was edited and reloaded: other boundaries, one more or
+			// one fewer than the data carry
+			for i, x := range bounds {
+				if i == 0 && r.Chance(40) {
+					continue
+				}
+				redecl = append(redecl, hx(unhx(x)*3+0.125))
+			}
+			if len(redecl) == 0 || r.Chance(40) {
+				redecl = append(redecl, hx(1e6))
+			}
+		}
 		// one metric per name, or (prog label on) the same name in several programs
 		nsame := 1
 		if !sp.Omit && r.Chance(20) {
@@ -617,7 +643,7 @@ func genStore(r *vlib.Rand) storeSpec {
 			}
 			progs[prog] = true
 			ms := mSpec{Name: vlib.Q(name), Prog: vlib.Q(prog), Kind: kind, Type: typ, Keys: vlib.Qs(keys),
-				Source: vlib.Q(fmt.Sprintf("%s:%d:%d-%d", prog, 1+r.Intn(40), 1+r.Intn(20), 21+r.Intn(9))), Bounds: bounds, Ranges: ranges}
+				Source: vlib.Q(fmt.Sprintf("%s:%d:%d-%d", prog, 1+r.Intn(40), 1+r.Intn(20), 21+r.Intn(9))), Bounds: bounds, Ranges: ranges, Redecl: redecl}
 			nls := r.Intn(6)
 			if nk == 0 && nls > 1 {
 				nls = 1
@@ -648,7 +674,7 @@ func genStore(r *vlib.Rand) storeSpec {
 				// whatever the wall clock of the run is
 				switch r.Intn(6) {
 				case 0:
-					l.Expiry = int64(1 + r.Intn(3600000)) * 1000000 // <= 1 h, elapsed
+					l.Expiry = int64(1+r.Intn(3600000)) * 1000000 // <= 1 h, elapsed
 				case 1:
 					l.Expiry = 1 // 1 ns, elapsed
 				case 2:
